@@ -38,7 +38,13 @@ theorem rs_mono (v : ℝ) (e₁ e₂ : ℤ) (k : ℕ) (hv : 0 ≤ v) (h : e₁ +
   rw [this, pow_add]
   have hr : 0 ≤ rs v (e₁ + ↑k + ↑j) := by unfold rs; positivity
   have hj : (1 : ℝ) ≤ (10 : ℝ) ^ j := one_le_pow₀ (by norm_num)
-  nlinarith [pow_pos (show (0 : ℝ) < 10 by norm_num) k]
+  have hk : (0 : ℝ) ≤ (10 : ℝ) ^ k := by positivity
+  calc (10 : ℝ) ^ k * rs v (e₁ + ↑k + ↑j)
+      = (10 : ℝ) ^ k * (1 * rs v (e₁ + ↑k + ↑j)) := by ring
+    _ ≤ (10 : ℝ) ^ k * ((10 : ℝ) ^ j * rs v (e₁ + ↑k + ↑j)) := by
+        apply mul_le_mul_of_nonneg_left _ hk
+        exact mul_le_mul_of_nonneg_right hj hr
+    _ = (10 : ℝ) ^ k * (10 : ℝ) ^ j * rs v (e₁ + ↑k + ↑j) := by ring
 
 /-- order preservation in the value -/
 theorem rs_lt_iff (v w : ℝ) (e : ℤ) : v < w ↔ rs v e < rs w e := by
